@@ -14,6 +14,12 @@ from .c02 import corr_modules, lean_extra
 SIGS = ("window-conservation", "window-deadline", "partition-empty", "partition-oversize", "partition-mixed-keys",
         "partition-spurious-partial", "partition-late-full")
 CORPUS = [
+    # partition(3, timeout=0): three elements of one key in one loop callback fill the partition; its zero-delay timer must be cancelled
+    {"mode": "async", "flavour": "future", "nodes": [{"kind": "source", "ups": []}, {"kind": "partition_timeout", "n": 3, "timeout": 0, "key": None, "ups": [0]},
+                                                      {"kind": "sink", "mode": "sync", "f": ["id"], "ups": [1]}],
+     "ops": [{"op": "settle"}, {"op": "multi", "ops": [{"op": "emit", "node": 0, "val": v, "md": [{"tag": v, "ref": v}]} for v in (1, 2, 3)]},
+             {"op": "multi", "ops": [{"op": "emit", "node": 0, "val": v, "md": []} for v in (4, 5, 6)]}, {"op": "emit", "node": 0, "val": 7, "md": []},
+             {"op": "advance", "dt": 1}]},
     # two partition(timeout) nodes alive at once, same key (None): each has its own timer - A filling up must not touch B's
     {"mode": "async", "flavour": "future", "nodes": [{"kind": "source", "ups": []}, {"kind": "source", "ups": []},
                                                       {"kind": "partition_timeout", "n": 2, "timeout": 1, "key": None, "ups": [0]},
@@ -143,6 +149,9 @@ def run(ctx):
         run_indexed_key_case(ctx, indexed_key_case(ctx.rng))
     n = 200 if not ctx.thorough() else 6000
     A.sweep(ctx, n, KINDS, ["windows"], SIGS, allow_zip=False, corpus=CORPUS)
+    # several emissions in ONE loop callback (a burst from a flatten, back-to-back emits): a partition can fill up before its timer
+    # - also a zero-delay one - has had a chance to fire
+    A.sweep(ctx, n // 3, KINDS, ["windows"], SIGS, allow_zip=False, opts={"p_multi": 0.35})
     for m in corr_modules():
         if m.__name__.endswith("asyncwindows"):
             m.run(ctx, "C08", 60 if not ctx.thorough() else 2500)
